@@ -712,7 +712,19 @@ class PureScheduler:                                    # pylint: disable=r0902
             # wait for the forever tasks for a clean exit
             # don't bother to set a timeout, as this is expected
             # to be immediate since all tasks are canceled
-            await asyncio.wait(pending)
+            # if we get cancelled ourselves in the meantime (our enclosing
+            # scheduler is giving up as well), the tasks have been cancelled
+            # already: keep on waiting until they are really over, and only
+            # then let the cancellation through
+            interrupted = None
+            while True:
+                try:
+                    await asyncio.wait(pending)
+                    break
+                except asyncio.CancelledError as exc:
+                    interrupted = exc
+            if interrupted is not None:
+                raise interrupted
 
     async def _tidy_tasks_exception(self, tasks):
         """
